@@ -225,14 +225,18 @@ def apply_history(spec, device):
     pre["drive"] = {"A": {"kind": "zero"}}
     if spec["drive"].get("currents", {}).get("kind") == "const":
         pre["drive"]["currents"] = spec["drive"]["currents"]
-    if spec["history"] == "layer_edited":
+    if spec["history"] == "layer_edited_screening":
+        # the earlier run of the material sweep was a SCREENING run too (same field, weaker screening material)
+        o["include_screening"] = True
+        pre["drive"]["A"] = spec["drive"].get("A", {"kind": "zero"})
+    if spec["history"] in ("layer_edited", "layer_edited_screening"):
         # a sweep over material parameters on ONE Device object: the earlier run saw another penetration depth / thickness /
         # coherence-independent layer values; they are set back to this case's values before the monitored run
         L = device.layer
         keep = (L.london_lambda, L.thickness, L.gamma)
         L.london_lambda, L.thickness, L.gamma = 2.0 * keep[0], 0.5 * keep[1], 3.0
     r0 = sim.run_sim(pre, [], device=device)
-    if spec["history"] == "layer_edited":
+    if spec["history"] in ("layer_edited", "layer_edited_screening"):
         L.london_lambda, L.thickness, L.gamma = keep
     if r0.refused:
         return str(r0.refused)
